@@ -128,6 +128,15 @@ Definition unhandled (st : state) (p : Z) : bool :=
   negb (special p) && negb (mem p (transport_table st)) && negb (mem p channel_handler_table)
   && negb (mem p (auth_table st)).
 
+(* ---- messages that only ever travel in one direction (RFC 4253 section 10, RFC 4252, RFC 4256):
+   a client never has to serve SERVICE_REQUEST / USERAUTH_REQUEST / USERAUTH_INFO_RESPONSE, a server never
+   has to take SERVICE_ACCEPT / USERAUTH_FAILURE / SUCCESS / BANNER / INFO_REQUEST.  Whatever table a handler
+   lives in, these must stay without a handler in the role that never receives them legitimately. ---- *)
+Definition client_to_server_only : list Z :=
+  [MSG_SERVICE_REQUEST; MSG_USERAUTH_REQUEST; MSG_USERAUTH_INFO_RESPONSE].
+Definition server_to_client_only : list Z :=
+  [MSG_SERVICE_ACCEPT; MSG_USERAUTH_FAILURE; MSG_USERAUTH_SUCCESS; MSG_USERAUTH_BANNER; MSG_USERAUTH_INFO_REQUEST].
+
 (* ---- a stream of packets: the receive sequence number advances by one per packet ---- *)
 Definition next_seq (s : Z) : Z := (s + 1) mod 2 ^ 32.
 
